@@ -8,7 +8,7 @@ TEXT = {
  "C17": dict(
     technique="TLA+ definition (Bounds.tla) model-checked by TLC; TLC-generated exhaustive case table replayed on apply_bounds",
     text="TLC enumerates every lattice case (3 methods x boxes x inputs incl. faces, one-ulp offsets, exact multiples of the range) of Bounds.tla, checks the property's laws on the definition, and the complete table is replayed on the real apply_bounds under 9 float concretisations incl. (-0.1,0.2), 1e-9 and 1e9 ranges; every case additionally as a single vector, where integer-valued as int64 / float32 arrays, as Fortran-ordered / transposed / strided / read-only populations, and (toroidal) through GaussianMutation with forced noise. Exhaustive for the bounded lattice; floats enter through the stated ulp tolerances.",
-    note="Trusted: TLC, the harness' concretisation/ulp comparison, numpy. Not covered: inputs that are not an affine image of a lattice point within Span ranges of the box; scales outside 1e-300 ... 1e9 - in particular boxes within a factor 4 of the largest double, where x - lower or 2 * range overflows (DESIGN 10.7b records an observation there).",
+    note="Trusted: TLC, the harness' concretisation/ulp comparison, numpy. Not covered: inputs that are not an affine image of a lattice point within Span ranges of the box; scales between 1e9 and 2^1022. Boxes within a factor 4 of the largest double are covered by the near-max concretisation; there known_findings.json records KF-C17-overflow (NaN when x - lower overflows), reported as KNOWN-FINDING.",
     design_ref="4/C17"),
 }
 
